@@ -298,16 +298,16 @@ Lemma transfer_is_payload_copy z s a o i j tj v x s' e :
   existsb (is_src_read j) e = true /\ existsb (is_dst_write i) e = true.
 Proof.
   intros Hs Ht Hj Hst.
-  destruct o; cbn [transfer_of] in Ht; try discriminate; inversion Ht; subst; clear Ht;
+  destruct o; try destruct mv; cbn [transfer_of] in Ht; try discriminate; inversion Ht; subst; clear Ht;
     (destruct (N.eqb_spec i j) as [E|Nij];
      [ subst j; pose proof (Hs i) as Hi; rewrite Hj in Hi; cbn in Hi;
-       revert Hst; cbv beta iota delta [step ctor_from assign_from]; rewrite Hi;
+       revert Hst; cbv beta iota delta [step ctor_from assign_from deref_from]; rewrite Hi;
        destruct tj; cbv beta iota zeta delta -[upd N.eqb]; rewrite ?N.eqb_refl;
        cbv beta iota zeta delta -[upd N.eqb]; intro Hst; try discriminate; inversion Hst; subst;
        cbn; rewrite ?N.eqb_refl; cbn; rewrite ?orb_true_r; split; reflexivity
      | pose proof (Hs i) as Hi; pose proof (Hs j) as Hj'; rewrite Hj in Hj'; cbn in Hj';
        apply N.eqb_neq in Nij;
-       revert Hst; cbv beta iota delta [step ctor_from assign_from]; rewrite Hi, Hj';
+       revert Hst; cbv beta iota delta [step ctor_from assign_from deref_from]; rewrite Hi, Hj';
        destruct (a i) as [[[|] [?|]]|]; destruct tj; cbv beta iota zeta delta -[upd N.eqb]; rewrite ?Nij;
        cbv beta iota zeta delta -[upd N.eqb]; intro Hst; try discriminate; inversion Hst; subst;
        cbn; rewrite ?N.eqb_refl; cbn; rewrite ?orb_true_r; split; reflexivity ]).
